@@ -285,9 +285,32 @@ func runViewCase(c *viewCase, root string) (res viewResult) {
 			close(readerStop)
 			bgWg.Wait()
 		}
+		// In half of the runs that close in the middle a planner keeps asking for level compactions while the shard
+		// closes, as the store's compaction worker does (shard.Compact -> LevelCompact -> LevelPlan): Close disables
+		// compaction and closes the table store while such a call may be between its checks. Close must still return.
+		var closeReturned int32
+		racerDone := make(chan struct{})
+		if sh := e.Shard(); c.CloseMid && c.ID%2 == 0 && sh != nil {
+			if st, ok := sh.GetTableStore().(*immutable.MmsTables); ok {
+				sh.EnableCompAndMerge()
+				go func() {
+					defer close(racerDone)
+					for i := 0; i < 2000 && atomic.LoadInt32(&closeReturned) == 0; i++ {
+						_ = st.LevelCompact(0, engx.ShardID)
+					}
+				}()
+				time.Sleep(time.Duration(rng.Intn(300)) * time.Microsecond)
+			} else {
+				close(racerDone)
+			}
+		} else {
+			close(racerDone)
+		}
 		rec.emit(viewEvent{"ev": "CloseBegin"})
 		atomic.StoreInt32(&closed, 1)
 		_ = e.Close()
+		atomic.StoreInt32(&closeReturned, 1)
+		<-racerDone
 		rec.emit(viewEvent{"ev": "CloseEnd"})
 		if c.CloseMid {
 			close(readerStop)
